@@ -2021,6 +2021,27 @@ void chk_map_lookup(seq const &s)
       auto const it = d.find(k);
       expect(it != d.end() && &it->second == &ref, true, "get_or_insert", kn, "refers-to-other-object");
       VF_COUNT("judged/get_or_insert");
+      // failure path: the creating function throws - nothing may have been inserted (the obvious loop evaluates the
+      // function before it touches the map)
+      {
+        MapT d3(m);
+        struct create_failed
+        {
+        };
+        bool threw = false;
+        try
+        {
+          lib();
+          (void)fcppt::container::get_or_insert(d3, k, [](int) -> int { throw create_failed{}; });
+        }
+        catch (create_failed const &)
+        {
+          threw = true;
+        }
+        expect(threw, fi < 0, "get_or_insert", kn, "throwing-create/called-iff-absent");
+        expect(sorted_pairs(d3), before, "get_or_insert", kn, "throwing-create/map-modified");
+        VF_COUNT("get_or_insert/throwing-create");
+      }
       // observed: the flag of get_or_insert_with_result
       MapT d2(m);
       auto const res = fcppt::container::get_or_insert_with_result(d2, k, [](int const kk) { return 1000 + kk; });
@@ -2891,7 +2912,7 @@ void body()
         "split_string/consecutive-delimiters", "join_strings/inverse-of-split", "join_strings/no-fields",
         "join_strings/one-field", "join/an-empty-operand", "join/non-empty-operands", "at_optional/in-range",
         "at_optional/index-equals-size", "at_optional/beyond-size", "find_opt_mapped/found", "find_opt_mapped/absent",
-        "get_or_insert/found", "get_or_insert/inserted", "set_difference/proper-non-empty",
+        "get_or_insert/found", "get_or_insert/inserted", "get_or_insert/throwing-create", "set_difference/proper-non-empty",
         "set_ops/incomparable-operands", "array::from_range/size-matches", "array::from_range/source-longer",
         "array::from_range/source-shorter", "array::append/an-empty-operand", "tuple::concat/an-empty-operand"})
     vf::require_bucket(b);
